@@ -18,7 +18,7 @@ META = {
                "(executed on the concrete witness of each structure)",
     "assumptions": ["CRC equalities use the fold summary: same summary variable on both sides; lemma Z / Z' of C08 (appended CRC zeroes the register, uniquely)"],
 }
-WALL_BUDGET = {"quick": 480, "thorough": 3000}
+WALL_BUDGET = {"quick": 900, "thorough": 3000}
 
 
 def jobs(tier, seed):
